@@ -3,6 +3,7 @@ import Proofs.Options
 import Proofs.OptionsFuel
 import Proofs.OptionsPerm
 import Proofs.OptionsNoGit
+import Proofs.OptionsSpec
 /-!
 C13 — option values resolve by the documented precedence, deterministically.
 
@@ -92,6 +93,92 @@ theorem gather_fuel_suffices (π : List Name) (inp : Inputs) (k : Nat)
 
 example : fuelFor (builtinsFor sample) (keysOf (builtinsFor sample) sortedNames) sample
     (finalConfig sample) ≤ 100 := by decide
+
+/-! ### The gathered feature list is the documented order -/
+
+/-- `gather_eq_spec`. With a git config object present, the list `gather_features` builds —
+    read from its high-priority (right-hand) end, repeats dropped — is the documented order:
+    the first-occurrence de-duplicated pre-order traversal of the feature forest whose roots are
+    `--features` / `DELTA_FEATURES` (last listed first), then the command-line feature flags, then
+    `[delta] features` (only if no feature list was given), then the feature flags of `[delta]`;
+    a feature's children are the features its builtin table names, the `features` key of its
+    `[delta "f"]` section (last listed first) and the builtin flags set there.
+
+    Hypotheses (all decidable for a concrete configuration): the feature graph without
+    self-loops is acyclic, witnessed by a rank table `rk` (cyclic configurations terminate in the
+    model — `gather_fuel_suffices` — but are outside this statement); `π` lists builtin names;
+    no `[delta "<builtin name>"]` section itself enables features (the Rust expands such a
+    section only on some of the paths that reach the builtin; not documented). -/
+theorem gather_eq_spec (π : List Name) (inp : Inputs) (g : GitCfg) (hg : finalConfig inp = some g)
+    (rk : List (Name × Nat)) (B : Nat)
+    (hdec : ∀ f ∈ graphNodes (builtinsFor inp) g,
+      ∀ c ∈ childrenOf (builtinsFor inp) (keysOf (builtinsFor inp) π) g f, rankOf rk c < rankOf rk f)
+    (hbound : ∀ p ∈ rk, p.2 < B) (hB : 0 < B) (hπ : ∀ c ∈ π, c ∈ builtinNames)
+    (hreg : ∀ b ∈ builtinNames, secFeatures g (some b) = [] ∧
+      ∀ c ∈ keysOf (builtinsFor inp) π, g.getBool (some b) c ≠ some true)
+    (d : Nat) (hd : B ≤ d) :
+    dedup (gatherFeatures π inp).reverse = specOrder d (keysOf (builtinsFor inp) π) inp g :=
+  gatherFeatures_spec π inp g hg (rankOf rk) B
+    (regular_of_checks π inp g rk B hdec hbound hB hπ hreg) d hd
+
+def sampleCfg : GitCfg :=
+  { enabled := true, params := [],
+    file := { main := [("file-style", "green"), ("features", "b"), ("tabs", "3")],
+              sections := [("a", [("file-style", "blue"), ("file-modified-label", "A"), ("features", "b")]),
+                           ("b", [("file-modified-label", "B"), ("tabs", "5"), ("line-numbers", "true")])],
+              other := [] } }
+
+def sampleRank : List (Name × Nat) :=
+  [("a", 3), ("b", 2), ("side-by-side", 2), ("line-numbers", 1)]
+
+-- the hypotheses hold for `sample` (nested custom features, a builtin enabled by a flag in a
+-- custom section, a builtin named on the command line), and the conclusion is not vacuous
+example : finalConfig sample = some sampleCfg := by decide
+example : ∀ f ∈ graphNodes (builtinsFor sample) sampleCfg,
+    ∀ c ∈ childrenOf (builtinsFor sample) (keysOf (builtinsFor sample) sortedNames) sampleCfg f,
+      rankOf sampleRank c < rankOf sampleRank f := by decide
+example : (∀ p ∈ sampleRank, p.2 < 4) ∧ (∀ c ∈ sortedNames, c ∈ builtinNames) := by decide
+example : ∀ b ∈ builtinNames, secFeatures sampleCfg (some b) = [] ∧
+    ∀ c ∈ keysOf (builtinsFor sample) sortedNames, sampleCfg.getBool (some b) c ≠ some true := by decide
+example : specOrder 4 (keysOf (builtinsFor sample) sortedNames) sample sampleCfg =
+    ["navigate", "a", "b", "line-numbers"] := by decide
+/-- A cyclic configuration: `[delta "a"] features = b`, `[delta "b"] features = a c`. -/
+def cyclic : Inputs :=
+  { noInputs with
+    cliFeatures := some "a"
+    configFile := some { main := [], sections := [("a", [("features", "b")]), ("b", [("features", "a c")])],
+                         other := [] } }
+
+def cyclicCfg : GitCfg :=
+  { enabled := true, params := [],
+    file := { main := [], sections := [("a", [("features", "b")]), ("b", [("features", "a c")])],
+              other := [] } }
+
+-- cyclic configurations are outside the hypotheses, but the unfolded spec still agrees there
+example : finalConfig cyclic = some cyclicCfg ∧
+    dedup (gatherFeatures sortedNames cyclic).reverse = ["a", "b", "c"] ∧
+    specOrder 6 (keysOf (builtinsFor cyclic) sortedNames) cyclic cyclicCfg = ["a", "b", "c"] := by
+  decide
+
+/-- The effective value, stated along the documented order itself. -/
+theorem effective_value_documented_order (π : List Name) (inp : Inputs) (g : GitCfg)
+    (hg : finalConfig inp = some g) (rk : List (Name × Nat)) (B : Nat)
+    (hdec : ∀ f ∈ graphNodes (builtinsFor inp) g,
+      ∀ c ∈ childrenOf (builtinsFor inp) (keysOf (builtinsFor inp) π) g f, rankOf rk c < rankOf rk f)
+    (hbound : ∀ p ∈ rk, p.2 < B) (hB : 0 < B) (hπ : ∀ c ∈ π, c ∈ builtinNames)
+    (hreg : ∀ b ∈ builtinNames, secFeatures g (some b) = [] ∧
+      ∀ c ∈ keysOf (builtinsFor inp) π, g.getBool (some b) c ≠ some true)
+    (d : Nat) (hd : B ≤ d) (o : Name) :
+    effective π inp o =
+      (firstSome ([(lookup o inp.cli).map Val.cli, (g.get none o).map Val.git] ++
+        (specOrder d (keysOf (builtinsFor inp) π) inp g).flatMap
+          (featureLayers (builtinsFor inp) (some g) o))).getD .dflt := by
+  rw [effective_value_spec, ← gather_eq_spec π inp g hg rk B hdec hbound hB hπ hreg d hd]
+  unfold layers
+  simp only [hg, optGet]
+  rw [firstSome_append, firstSome_append]
+  congr 2
+  exact firstSome_flatMap_dedup (featureLayers (builtinsFor inp) (some g) o) _
 
 /-! ### `--no-gitconfig` -/
 
